@@ -1,6 +1,7 @@
 package world
 
 import (
+	"sync/atomic"
 	"bufio"
 	"bytes"
 	"context"
@@ -64,7 +65,8 @@ func serveCanned(s net.Conn, resp Responder, cert *tls.Certificate) {
 		body, _ := io.ReadAll(req.Body)
 		status, rb := resp(req, body)
 		var buf bytes.Buffer
-		fmt.Fprintf(&buf, "HTTP/1.1 %d %s\r\nContent-Type: application/json\r\nContent-Length: %d\r\n\r\n", status, http.StatusText(status), len(rb))
+		// (documents are served with the cache directives many providers send; a client is free to ignore them)
+		fmt.Fprintf(&buf, "HTTP/1.1 %d %s\r\nContent-Type: application/json\r\nCache-Control: public, max-age=1\r\nContent-Length: %d\r\n\r\n", status, http.StatusText(status), len(rb))
 		buf.Write(rb)
 		if _, err := conn.Write(buf.Bytes()); err != nil {
 			return
@@ -76,6 +78,25 @@ func serveCanned(s net.Conn, resp Responder, cert *tls.Certificate) {
 // table prepared before the threads start (key: code or refresh token).
 func CannedIdP(base string, tokenAnswers map[string][]byte) Responder {
 	return CannedIdPDoc(base, tokenAnswers, false)
+}
+
+// CannedIdPMoving is a provider whose discovery document changes with every fetch (its endpoints move from /auth to
+// /v2/auth, /v3/auth, ...; all of them are served): a client that fetches the document once never notices.
+func CannedIdPMoving(base string, tokenAnswers map[string][]byte) Responder {
+	inner := CannedIdPDoc(base, tokenAnswers, false)
+	var fetches int64
+	return func(r *http.Request, body []byte) (int, []byte) {
+		if strings.HasSuffix(r.URL.Path, "/.well-known/openid-configuration") {
+			n := atomic.AddInt64(&fetches, 1)
+			v := ""
+			if n > 1 {
+				v = fmt.Sprintf("/v%d", n)
+			}
+			return 200, []byte(fmt.Sprintf(`{"issuer":%q,"authorization_endpoint":%q,"token_endpoint":%q,"jwks_uri":%q,"end_session_endpoint":%q}`,
+				base, base+v+"/auth", base+v+"/token", base+"/jwks", base+v+"/logout"))
+		}
+		return inner(r, body)
+	}
 }
 
 // RichMetadata is the optional provider metadata of the "rich" discovery document: every member is legal, the values
